@@ -671,7 +671,8 @@ impl desert::BinaryDeserializer for EvoNodeR {
                 if extra != label as u8 {
                     return Err(desert::Error::DeserializationFailure("sibling field of the edge list changed".into()));
                 }
-                let edges: EvoEdgesR = de.read_field("edges", None)?;
+                // (the step that added the edge list declares a default, as a derived record would: no edges)
+                let edges: EvoEdgesR = de.read_field("edges", Some(EvoEdgesR(Vec::new())))?;
                 *node.edges.borrow_mut() = edges.0;
                 Ok(EvoNodeR(node))
             }
@@ -690,10 +691,20 @@ impl desert::BinaryDeserializer for EvoEdgesR {
 }
 
 fn evo_model(g: &Graph) -> Vec<u8> {
-    fn slot(n: usize, g: &Graph, ids: &mut Vec<Option<u32>>, next: &mut u32) -> Vec<u8> {
+    evo_model_faulty(g, None).0
+}
+
+/// the model's bytes with the `fault`-th back-reference (if any) citing object 127 instead — an object that a graph of
+/// fewer than 127 objects never introduces, in a var-int of the same length so that every chunk size stays right;
+/// second result: how many back-references there are
+fn evo_model_faulty(g: &Graph, fault: Option<usize>) -> (Vec<u8>, usize) {
+    fn slot(n: usize, g: &Graph, ids: &mut Vec<Option<u32>>, next: &mut u32, refs: &mut usize, fault: Option<usize>) -> Vec<u8> {
         let mut out = Vec::new();
         match ids[n] {
-            Some(id) => var_u32(id, &mut out),
+            Some(id) => {
+                var_u32(if Some(*refs) == fault && id < 127 { 127 } else { id }, &mut out);
+                *refs += 1;
+            }
             None => {
                 *next += 1;
                 ids[n] = Some(*next);
@@ -702,7 +713,7 @@ fn evo_model(g: &Graph) -> Vec<u8> {
                 let mut chunk1 = Vec::new();
                 var_u32(g.edges[n].len() as u32, &mut chunk1);
                 for t in &g.edges[n] {
-                    chunk1.extend(slot(*t, g, ids, next));
+                    chunk1.extend(slot(*t, g, ids, next, refs, fault));
                 }
                 out.push(1);
                 vmodel::refcodec::var_i32(1, &mut out);
@@ -713,8 +724,9 @@ fn evo_model(g: &Graph) -> Vec<u8> {
         }
         out
     }
-    let (mut ids, mut next) = (vec![None; g.labels.len()], 0);
-    evo_roots(g).into_iter().flat_map(|r| slot(r, g, &mut ids, &mut next)).collect()
+    let (mut ids, mut next, mut refs) = (vec![None; g.labels.len()], 0, 0);
+    let bytes = evo_roots(g).into_iter().flat_map(|r| slot(r, g, &mut ids, &mut next, &mut refs, fault)).collect();
+    (bytes, refs)
 }
 
 /// the values written one after the other through ONE context: the root, and in two cases out of three a second
@@ -810,6 +822,34 @@ pub fn check_evo_graph(g: &Graph, acc: &mut Acc, record: bool) -> Verdict {
             Err(p) => Verdict::Fail(format!("decoding a graph of evolved-record nodes panicked: {p}")),
         };
         unlink(&all);
+        if !matches!(v, Verdict::Pass) {
+            return v;
+        }
+        // fault part: one back-reference cites an object that was never introduced, inside the chunk of the added field
+        let (_, n_refs) = evo_model_faulty(g, None);
+        if n_refs > 0 && g.labels.len() < 120 {
+            let k = g.labels.iter().fold(0usize, |a, l| a.wrapping_mul(31).wrapping_add(*l as usize)) % n_refs;
+            let (bad, _) = evo_model_faulty(g, Some(k));
+            if bad != want {
+                DECODED.with(|d| d.borrow_mut().clear());
+                let dec = guarded(|| {
+                    let mut ctx = DeserializationContext::new(&bad);
+                    for _ in &roots {
+                        <EvoNodeR as desert::BinaryDeserializer>::deserialize(&mut ctx)?;
+                    }
+                    Ok::<_, desert::Error>(())
+                });
+                let all = DECODED.with(|d| std::mem::take(&mut *d.borrow_mut()));
+                unlink(&all);
+                if record {
+                    acc.bump("evolved_record_graphs_with_a_reference_to_a_never_introduced_object", 1);
+                }
+                match dec {
+                    Ok(Err(desert::Error::InvalidRefId(_))) => {}
+                    other => return Verdict::Fail(format!("a graph of evolved-record nodes whose back-reference #{k} cites object 127 ({} introduced) gave {other:?} instead of Err(InvalidRefId)", g.labels.len())),
+                }
+            }
+        }
         v
     })();
     unlink(&nodes);
